@@ -1,13 +1,49 @@
-(** C14 - surface syntax that carries no meaning never changes the output (examples; theorems follow). *)
-From Coq Require Import List ZArith NArith String.
+(** C14 - surface syntax that carries no meaning never changes the output.
+    PARTIAL: the proved parts are below; spacing around operands, commas and operators, trailing
+    comments after a statement and the radix of numbers rest on the metamorphic search and the
+    correspondence of ./check C14 (DESIGN.md section 3, C14).  Proofs: Proofs/SurfaceProofs.v. *)
+From Coq Require Import List ZArith NArith String Ascii.
 Import ListNotations.
-Require Import AvraV.Model.Base AvraV.Model.Ast AvraV.Model.Passes.
+Require Import AvraV.Model.Base AvraV.Model.Ast AvraV.Model.Eval AvraV.Model.Encode AvraV.Model.Grammar.
+Require Import AvraV.Model.Lines AvraV.Model.Parse AvraV.Model.Passes AvraV.Proofs.SurfaceProofs AvraV.Proofs.SymProofs.
+
+(** letter case of mnemonics, function names, index registers, the r of a register *)
+Theorem C14_mnemonic_case : forall n n', lower n = lower n' -> operation_of_name n = operation_of_name n'.
+Proof. exact mnemonic_case. Qed.
+Theorem C14_function_case : forall name name' v, lower name = lower name' -> eval_func name v = eval_func name' v.
+Proof. exact function_case. Qed.
+Theorem C14_register_case : forall d r c,
+  reg8 ("r"%char :: d) = reg8 ("R"%char :: d) /\ reg16 (c :: r) = reg16 (lower_ascii c :: r).
+Proof. intros. split; [apply (reg8_case d r) | apply reg16_case]. Qed.
+(** symbol references: see C10_case *)
+Print Assumptions C14_register_case.
+
+(** comment-only lines (blanks, then ';' or '//' and ANY text) and blank lines parse to the empty
+    line, and the line loop passes over an empty line without touching the assembly state - in
+    every mode it can be in when it reads a line (also inside conditionals; while a macro body is
+    recorded or a branch is skipped, lines are not interpreted at all) *)
+Theorem C14_comment_lines : forall b t, Forall blank b ->
+  parse_line (b ++ ";"%char :: t) = Some EmptyLine /\ parse_line (b ++ "/"%char :: "/"%char :: t) = Some EmptyLine.
+Proof. exact comment_line_empty. Qed.
+Theorem C14_blank_lines : forall b, Forall blank b -> parse_line b = Some EmptyLine.
+Proof. exact blank_line_empty. Qed.
+Theorem C14_empty_line_noop : forall fuel inc g n l r skipped st,
+  parse_line l = Some EmptyLine -> parse_iter fuel inc (S g) ((n, l) :: r) skipped st = parse_iter fuel inc g r false st.
+Proof. exact empty_line_noop. Qed.
+Print Assumptions C14_comment_lines.
+
+(** LF versus CR LF: a text without stray carriage returns splits into the same lines either way *)
+Theorem C14_crlf : forall s, no_cr s -> split_lines (crlf s) = split_lines s.
+Proof. exact crlf_same_lines. Qed.
+Print Assumptions C14_crlf.
+
 Definition code_of (src : string) : option (list N) :=
   match build_str 200 (list_ascii_of_string src) with Ok b => Some (b_code b) | _ => None end.
 Definition nl := String (Ascii.ascii_of_N 10) EmptyString.
-Definition crlf := String (Ascii.ascii_of_N 13) nl.
+Definition crnl := String (Ascii.ascii_of_N 13) nl.
 Example C14_examples :
-  code_of ("ldi r16, low(0x1F)" ++ nl) = code_of (" LDI  R16 ,LOW ( $1f ) ; c" ++ crlf ++ "// x" ++ crlf) /\
+  code_of ("ldi r16, low(0x1F)" ++ nl) = code_of (" LDI  R16 ,LOW ( $1f ) ; c" ++ crnl ++ "// x" ++ crnl) /\
   code_of ("ldi r16, 31" ++ nl) = code_of ("ldi r16, 0b11111 /* c */" ++ nl ++ nl) /\
+  code_of ("ldi r16, 31" ++ nl) = code_of ("ldi r16, 037" ++ nl) /\
   code_of ("ldi r16, 31" ++ nl) = Some [15; 225]%N.
 Proof. vm_compute. repeat split; reflexivity. Qed.
